@@ -225,6 +225,10 @@ func (g *tmplGen) elem(cond string) *TNode {
 	}
 	for i := 0; i < nd; i++ {
 		n := g.r.Pick([]string{"title", "class", "href", "data-a", "value", "viewBox", "onClick"})
+		if g.r.Chance(8) {
+			// directive names are case-sensitive: these are ordinary dynamic attributes
+			n = g.r.Pick([]string{"Text", "TEXT", "Raw", "If", "Range", "Remove", "With", "Insert"})
+		}
 		if used[g.ap+n] {
 			continue
 		}
